@@ -119,12 +119,21 @@ func verifTier() int               { return VerifTier() }
 // VerifSetFile defines the ghost file the os.* stubs serve; natively it
 // materialises the file so that the real os.Open sees the same thing.
 func VerifSetFile(name string, content []byte, length int, mode int) {
-	os.Remove(name)
-	if mode == 0 {
-		if err := os.WriteFile(name, content[:length], 0644); err != nil {
-			panic(VerifStop{"cannot write " + name})
-		}
+	if mode != 0 {
+		os.Remove(name)
+		return
 	}
+	// rewrite in place when the file exists (open handles keep seeing it, as
+	// they would after a writer's commit), create it otherwise
+	f, err := os.OpenFile(name, os.O_WRONLY|os.O_CREATE, 0644)
+	if err != nil {
+		panic(VerifStop{"cannot write " + name})
+	}
+	defer f.Close()
+	if _, err := f.WriteAt(content[:length], 0); err != nil {
+		panic(VerifStop{"cannot write " + name})
+	}
+	f.Truncate(int64(length))
 }
 func verifSetFile(name string, content []byte, length int, mode int) {
 	VerifSetFile(name, content, length, mode)
